@@ -66,6 +66,7 @@ void sim_probe(const char* name, uint64_t add); /* named reach counter */
 void sim_describe(const char* fmt, ...) __attribute__((format(printf, 1, 2))); /* sample text */
 /* known-finding scenario tag: violations raised while a tag is set carry it */
 void sim_scenario(const char* tag);
+void sim_trace(const char* fmt, ...) __attribute__((format(printf, 1, 2))); /* only printed with SIM_TRACE=1 */
 
 /* ---- fiber-runtime ghosts ---- */
 void sim_fiber_mode(void);      /* call before fiber_manager_init */
